@@ -105,10 +105,15 @@ func (p *projector) FlatProps(n *SNode) (props []*SProp, from []string) {
 		}
 		bp, _ := p.FlatProps(t.Schema)
 		for _, pr := range bp {
-			if seen[pr.Key] {
+			// "@k" (a literal key) and @k (any key of type @k) are two properties
+			id := pr.Key
+			if pr.KeyRef {
+				id = "ref " + id
+			}
+			if seen[id] {
 				continue
 			}
-			seen[pr.Key] = true
+			seen[id] = true
 			props = append(props, pr)
 			from = append(from, b)
 		}
